@@ -65,7 +65,32 @@ def digest_outputs(stage, outs, exc):
             d[key] = {k: hashlib.sha256(
                 v[2] if isinstance(v[2], bytes) else str(v[2]).encode()
             ).hexdigest() + str(v[:2]) for k, v in hd.items()}
+            # the same file by value: integer arrays widened to int64,
+            # floats to float64 (the serial and the parallel code paths
+            # legitimately store equal index arrays in different widths)
+            d[key + '__values'] = value_digest(val)
     return d
+
+
+def value_digest(path):
+    import h5py
+    import numpy as np
+    out = {}
+    with h5py.File(path, 'r') as f:
+        def visit(name, obj):
+            if not isinstance(obj, h5py.Dataset) or \
+                    name.split('/')[-1] == 'metadata':
+                return
+            v = obj[()]
+            if isinstance(v, np.ndarray) and v.dtype.kind in 'iub':
+                v = v.astype(np.int64)
+            elif isinstance(v, np.ndarray) and v.dtype.kind == 'f':
+                v = v.astype(np.float64)
+            if isinstance(v, np.ndarray) and v.dtype != object:
+                out[name] = hashlib.sha256(v.tobytes()).hexdigest() + \
+                    str(v.shape)
+        f.visititems(visit)
+    return out
 
 
 def main():
